@@ -33,7 +33,8 @@ def confirm(m):
     name = f"{prop}_{k}"
     wt = f"{OUT}/confirm_{name}"
     copy_repo(wt)
-    env = dict(os.environ, CARGO_TARGET_DIR=f"{OUT}/target_confirm_{hash(name) % 3}", CARGO_NET_OFFLINE="true")
+    import threading
+    env = dict(os.environ, CARGO_TARGET_DIR=f"{OUT}/target_confirm_{threading.get_ident() % 1000}", CARGO_NET_OFFLINE="true")
     res = {"id": name}
     rc, out = sh(["git", "apply", diff], cwd=wt)
     res["applies"] = rc == 0
@@ -41,11 +42,12 @@ def confirm(m):
         res["note"] = out[-300:]
         return res
     rc, out = sh("cargo test --offline 2>&1 | grep -E '^test result|FAILED|error' | head -5", cwd=wt, env=env)
-    res["suite_green_with_change"] = ("94 passed; 0 failed" in out) and ("FAILED" not in out) and "error" not in out
+    res["suite_green_with_change"] = ("94 passed; 0 failed" in out) and ("FAILED" not in out) and not re.search(r"(?m)^error", out)
     os.makedirs(f"{wt}/tests", exist_ok=True)
     shutil.copy(diff[:-5] + "_demo.rs", f"{wt}/tests/demo.rs")
-    rc, out = sh("cargo test --offline --test demo 2>&1 | tail -5", cwd=wt, env=env)
-    res["demo_red_with_change"] = rc != 0 or "FAILED" in out
+    rc, out = sh("cargo test --offline --test demo 2>&1 | tail -8", cwd=wt, env=env)
+    res["demo_red_with_change"] = "FAILED" in out or "panicked" in out or "test failed" in out
+    res["demo_out_with"] = out[-300:]
     sh(["git", "apply", "-R", diff], cwd=wt)
     rc, out = sh("cargo test --offline --test demo 2>&1 | tail -5", cwd=wt, env=env)
     res["demo_green_without_change"] = "test result: ok" in out and "FAILED" not in out
